@@ -655,6 +655,8 @@ func checkC13(c *Ctx) {
 	checkLiveConfig(c, "R9")
 	c.Rule("R10", "the once-only mark travels with the body: no request of the flagged type is built around the body of another one (the new object would start with a clear flag and the shared body be compressed again)")
 	checkBodyNotShared(c, "R10")
+	c.Rule("R11", "compressed and decompressed values are copied out of the pooled work buffers before those are released (shared with C19.R11)")
+	checkPooledBytesEscape(c, "R11")
 }
 
 // checkCpsHeader: writer builds magic ‖ alg ‖ CRLF; reader tests/strips the same offsets.
